@@ -8,20 +8,22 @@ import (
 	"strings"
 
 	"github.com/tonkeeper/tongo/boc"
+	"github.com/tonkeeper/tongo/tlb"
 	"verifharness/h"
 	"verifharness/tlbx"
 )
 
 func init() {
 	h.Register(&h.Prop{ID: "C03", Gen: genC03, Exec: withPrim(map[string]h.ExecFn{
-		"tlb.enc":      exTlbEnc,
-		"tlb.parsetag": exParseTag,
-		"tlb.fieldtag": exFieldTag,
-		"tlb.dec":      exTlbDec,
-		"go.rt":        goRoundTrip,
-		"go.redec":     goReDecode,
-		"go.stable":    goStable,
-		"go.bigint":    goBigInt,
+		"tlb.enc":       exTlbEnc,
+		"tlb.parsetag":  exParseTag,
+		"tlb.fieldtag":  exFieldTag,
+		"tlb.dec":       exTlbDec,
+		"go.rt":         goRoundTrip,
+		"go.redec":      goReDecode,
+		"go.stable":     goStable,
+		"go.bigint":     goBigInt,
+		"go.magictrunc": goMagicTrunc,
 	})})
 }
 
@@ -73,7 +75,7 @@ func genC03(g *h.G) {
 		switch tt.Class {
 		case "unsupported", "not-tlb":
 			continue
-		case "model", "partial":
+		case "model", "partial", "decode":
 			for i := 0; i < perType; i++ {
 				gc.ModelOnly = true
 				v := reflect.New(tt.T).Elem()
@@ -153,6 +155,12 @@ func genC03(g *h.G) {
 		}
 	}
 	genBigInt(g)
+	// Magic.ValidateTag on a cell that ends before the tag (zero-valued tags: the shipped code dropped the read error)
+	for _, tag := range []string{"#0", "#00", "$0", "$00", "#00000000", "x#0", "shardident$00"} {
+		for _, n := range []int{0, 1, 3} {
+			g.Emit("go.magictrunc", fmt.Sprintf("%x", tag), fmt.Sprint(n))
+		}
+	}
 	genTags(g)
 	genReal(g)
 }
@@ -172,6 +180,27 @@ func goBigInt(a []string) string {
 		return "FAIL in-range-value-rejected"
 	}
 	return r
+}
+
+// go.magictrunc <hex of the tag> <n>: a cell of n zero bits, n smaller than the tag: ValidateTag must fail
+func goMagicTrunc(a []string) string {
+	var tag []byte
+	fmt.Sscanf(a[0], "%x", &tag)
+	var n int
+	fmt.Sscan(a[1], &n)
+	t, err := tlb.ParseTag(string(tag))
+	if err != nil || t.Len <= n {
+		return "ok skipped"
+	}
+	c := boc.NewCell()
+	if err := c.WriteUint(0, n); err != nil {
+		return "bad-op"
+	}
+	var m tlb.Magic
+	if err := m.ValidateTag(c, string(tag)); err == nil {
+		return "FAIL truncated-cell-passes-the-tag-check"
+	}
+	return "ok rejected"
 }
 
 func genBigInt(g *h.G) {
